@@ -87,6 +87,15 @@ func (x *Exec) globalFacts(s *State, pkg *ssa.Package) {
 					}
 				}
 			}
+			// var a, b = f(...): if f has a contract whose postconditions speak about its results only,
+			// they hold of the globals (A-globals: assigned once by the package initialiser; checked:
+			// no other store to them in the package)
+			if ex, isEx := st.Val.(*ssa.Extract); isEx {
+				if call, isCall := ex.Tuple.(*ssa.Call); isCall {
+					x.globalsFromCall(s, pkg, init, call)
+				}
+				continue
+			}
 			if _, isCall := st.Val.(*ssa.Call); !isCall {
 				if _, isMI := st.Val.(*ssa.MakeInterface); !isMI {
 					continue
@@ -101,6 +110,100 @@ func (x *Exec) globalFacts(s *State, pkg *ssa.Package) {
 			s.assume(Not(Eq(ifTag(h), IntLit(0))))
 		}
 	}
+}
+
+// globalsFromCall assumes the result-only postconditions of a contracted callee for the globals
+// the package initialiser assigns from one call: var a, b = f(...).
+func (x *Exec) globalsFromCall(s *State, pkg *ssa.Package, init *ssa.Function, call *ssa.Call) {
+	if x.globalsDone == nil {
+		x.globalsDone = map[*ssa.Call]bool{}
+	}
+	if x.globalsDone[call] {
+		return
+	}
+	x.globalsDone[call] = true
+	callee := call.Common().StaticCallee()
+	if callee == nil {
+		return
+	}
+	fc := x.contractFor(callee)
+	if fc == nil || len(fc.Results) == 0 {
+		return
+	}
+	// which global receives which result
+	res := map[int]*ssa.Global{}
+	for _, b := range init.Blocks {
+		for _, in := range b.Instrs {
+			st, ok := in.(*ssa.Store)
+			if !ok {
+				continue
+			}
+			ex, ok := st.Val.(*ssa.Extract)
+			if !ok || ex.Tuple != ssa.Value(call) {
+				continue
+			}
+			if g, ok := st.Addr.(*ssa.Global); ok {
+				res[ex.Index] = g
+			}
+		}
+	}
+	// assigned once: no store to these globals outside the initialiser
+	for _, g := range res {
+		for _, m := range pkg.Members {
+			f, ok := m.(*ssa.Function)
+			if !ok || f == init {
+				continue
+			}
+			fns := append([]*ssa.Function{f}, f.AnonFuncs...)
+			for _, fn := range fns {
+				for _, b := range fn.Blocks {
+					for _, in := range b.Instrs {
+						if st, ok := in.(*ssa.Store); ok && st.Addr == ssa.Value(g) {
+							return
+						}
+					}
+				}
+			}
+		}
+	}
+	names := map[string]Val{}
+	for i, rn := range fc.Results {
+		g, ok := res[i]
+		if !ok {
+			return // a result that is not kept in a global: nothing can be said about the others
+		}
+		elem := g.Type().(*types.Pointer).Elem()
+		names[rn] = tv(x.heapGet(s, x.globalKey(g), x.sortOf(elem)), elem)
+	}
+	env := &SpecEnv{x: x, s: s, names: names, fnPkg: pkgOf(callee)}
+	for _, en := range fc.Ensures {
+		if exprMentionsOnly(en.E, names) {
+			if t, err := env.boolExpr(en.E); err == nil {
+				s.assume(t)
+			}
+		}
+	}
+}
+
+// exprMentionsOnly reports whether every identifier of e is one of names (or a constant like nil).
+func exprMentionsOnly(e *Expr, names map[string]Val) bool {
+	if e == nil {
+		return true
+	}
+	if e.Kind == eIdent {
+		if _, ok := names[e.Name]; !ok && e.Name != "nil" && e.Name != "true" && e.Name != "false" {
+			return false
+		}
+	}
+	if e.Kind == eCall || e.Kind == eQuant {
+		return false
+	}
+	for _, a := range e.Args {
+		if !exprMentionsOnly(a, names) {
+			return false
+		}
+	}
+	return true
 }
 
 func (e *Engine) VerifyFunction(fn *ssa.Function, fc *FuncContract) *FuncReport {
@@ -122,7 +225,7 @@ func (e *Engine) VerifyFunction(fn *ssa.Function, fc *FuncContract) *FuncReport 
 	s.assume(ILt(IntLit(0), s.alloc))
 	fr := &Frame{fn: fn, vals: map[ssa.Value]Val{}, vars: map[string]Val{}, visited: map[*ssa.BasicBlock]bool{}}
 	s.frames = []*Frame{fr}
-	for _, p := range fn.Params {
+	for pi, p := range fn.Params {
 		v := Var("p$"+p.Name(), x.sortOf(p.Type()))
 		x.assumeTyped(s, v, p.Type())
 		val := tv(v, p.Type())
@@ -130,6 +233,14 @@ func (e *Engine) VerifyFunction(fn *ssa.Function, fc *FuncContract) *FuncReport 
 		fr.vars[p.Name()] = val
 		x.params[p.Name()] = val
 		x.paramOrder = append(x.paramOrder, p.Name())
+		// a contract that lists its parameters binds them by position, so renaming a parameter in
+		// the code does not detach the contract (both names are usable)
+		if fc != nil && !fc.Extern && len(fc.Params) == len(fn.Params) {
+			if cn := fc.Params[pi].Name; cn != "" && cn != p.Name() {
+				fr.vars[cn] = val
+				x.params[cn] = val
+			}
+		}
 		// pointer receivers are non-nil (checked at every static call site as pre:...#recv-nonnil)
 		if recv := fn.Signature.Recv(); recv != nil && p == fn.Params[0] {
 			if _, isPtr := recv.Type().Underlying().(*types.Pointer); isPtr && (fc == nil || fc.Opts["nilrecv"] == "") {
@@ -267,7 +378,7 @@ func (e *Engine) VerifyFunction(fn *ssa.Function, fc *FuncContract) *FuncReport 
 					found = true
 				}
 			}
-			if !found {
+			if !found && !x.spareUsed[n] {
 				rep.Unsupported = append(rep.Unsupported, fmt.Sprintf("contract names loop %d but the function has %d loop(s)", n, len(loops)))
 			}
 		}
